@@ -328,4 +328,9 @@ def through_save_load(b):
     it = {k: iter(list(ocp2.variables[k])) for k in ('', 'control', 'control+')}
     b2.v = [next(it[kindkey[v['kind']]]) for v in decl['vars']]
     b2.quad_exprs = []
+    # the loaded object is an ordinary OCP: it accepts the usual edits on the symbols its accessors return
+    with contextlib.redirect_stdout(buf):
+        for i, p in enumerate(decl['params']):
+            if p['val'] and not (decl.get('pblocks')):
+                ocp2.set_value(b2.p[i], pval(p, decl['method']['N']))
     return b2
